@@ -48,7 +48,7 @@ template <typename T> struct kit<T, 1>
     using E = std::mt19937;
     using C = hep::vegas_chkpt_with_rng<E, T>;
     using Base = hep::vegas_chkpt<T>;
-    static C fresh() { return hep::make_vegas_chkpt<T, E>(128, T(1.5), E(3)); }
+    static C fresh() { return hep::make_vegas_chkpt<T, E>(128, T(1.75), E(3)); }
     template <typename CB> static C run(std::vector<sz> const& calls, C const& c, CB cb) { return hep::vegas(hep::make_integrand<T>(pf<T>(), 4), calls, c, cb); }
     static C load(std::istream& in) { return hep::make_vegas_chkpt<T, E>(in); }
 };
@@ -58,7 +58,7 @@ template <typename T> struct kit<T, 2>
     using C = hep::multi_channel_chkpt_with_rng<E, T>;
     using Base = hep::multi_channel_chkpt<T>;
     static vf::pl_map<T> map() { vf::pl_map<T> m; for (sz i = 0; i != 30; ++i) m.split.push_back(T(i + 1) / T(31)); return m; }
-    static C fresh() { return hep::make_multi_channel_chkpt<T, E>(T(0.001L), T(0.25), E(3)); }
+    static C fresh() { return hep::make_multi_channel_chkpt<T, E>(T(0.001L), T(0.375), E(3)); }
     template <typename CB> static C run(std::vector<sz> const& calls, C const& c, CB cb) { return hep::multi_channel(hep::make_multi_channel_integrand<T>(mf<T>(), 1, map(), 1, 30), calls, c, cb); }
     static C load(std::istream& in) { return hep::make_multi_channel_chkpt<T, E>(in); }
 };
@@ -111,7 +111,7 @@ static void put_file(std::string const& path, std::string const& content)
 
 static std::string describe_op(vf::fs_op const& op)
 {
-    std::string const p = op.path.substr(op.path.rfind('/') + 1);
+    std::string const p = (op.failed ? "failing: " : "") + op.path.substr(op.path.rfind('/') + 1);
     switch (op.kind)
     {
     case vf::fs_open: return std::string("open(") + p + (op.trunc ? ", truncate)" : ")");
@@ -225,7 +225,7 @@ static void scenario(report& r, int mode, bool preexisting, bool leftover = fals
             ++crash_states;
             r.eval();
             auto cur = state;
-            if (b > 0) cur[g_chk] += log[i].data.substr(0, b);
+            if (b > 0) cur = vf::fs_replay(state, std::vector<vf::fs_op>{log[i]}, 0, b);   // the first b bytes, at the position the write has
             auto const f = cur.find(g_chk);
             if (f == cur.end())
             {
@@ -302,6 +302,18 @@ static void scenario(report& r, int mode, bool preexisting, bool leftover = fals
                 if (predicted != list_dir())
                 {
                     std::fprintf(stderr, "HARNESS: real kill at op %zu byte %zu of %s leaves a directory that differs from the simulated crash state\n", i, b, base.c_str());
+                    auto const real_dir = list_dir();
+                    for (auto const& f : predicted) std::fprintf(stderr, "  simulated %s: %zu bytes\n", f.first.c_str(), f.second.size());
+                    for (auto const& f : real_dir) std::fprintf(stderr, "  real      %s: %zu bytes%s\n", f.first.c_str(), f.second.size(),
+                        predicted.count(f.first) && predicted.at(f.first) == f.second ? " (same)" : "");
+                    for (auto const& f : real_dir) if (predicted.count(f.first))
+                    {
+                        auto const& q = predicted.at(f.first);
+                        sz k = 0; while (k < q.size() && k < f.second.size() && q[k] == f.second[k]) ++k;
+                        std::fprintf(stderr, "  first difference at byte %zu; operations:", k);
+                        for (sz j = 0; j <= i && j < log.size(); ++j) std::fprintf(stderr, " %s@%ld", describe_op(log[j]).c_str(), log[j].offset);
+                        std::fprintf(stderr, "\n");
+                    }
                     std::exit(2);
                 }
                 r.validated();
